@@ -59,15 +59,6 @@ func (g *Grammar) Shrink(e *Expr, fails func(*Expr) bool) *Expr {
 		var all []pathExpr
 		subs(e, nil, &all)
 		// 1. whole expression -> proper closed sub-expression (smallest first)
-		best := -1
-		for i, pe := range all {
-			if len(pe.path) == 0 || !closed(pe.e, 0) {
-				continue
-			}
-			if best < 0 || pe.e.Size() < all[best].e.Size() {
-				_ = i
-			}
-		}
 		for _, pe := range all {
 			if len(pe.path) == 0 || !closed(pe.e, 0) {
 				continue
@@ -86,14 +77,17 @@ func (g *Grammar) Shrink(e *Expr, fails func(*Expr) bool) *Expr {
 			if len(pe.e.Kids) == 0 {
 				continue
 			}
-			for i, k := range pe.e.Kids {
-				if k.R.Out == pe.e.R.Out && pe.e.R.In[i].Closure < 0 {
-					c := replaceAt(e, pe.path, k)
-					budget--
-					if fails(c) {
-						e, changed = c, true
-						break
-					}
+			var desc []pathExpr
+			subs(pe.e, nil, &desc)
+			for _, d := range desc {
+				if len(d.path) == 0 || d.e.R.Out != pe.e.R.Out || crossesClosure(pe.e, d.path) {
+					continue
+				}
+				c := replaceAt(e, pe.path, d.e)
+				budget--
+				if fails(c) {
+					e, changed = c, true
+					break
 				}
 			}
 			if changed {
@@ -129,4 +123,15 @@ func (g *Grammar) Shrink(e *Expr, fails func(*Expr) bool) *Expr {
 		}
 	}
 	return e
+}
+
+// crossesClosure reports whether the path from e descends into a closure body.
+func crossesClosure(e *Expr, path []int) bool {
+	for _, i := range path {
+		if e.R.In[i].Closure >= 0 {
+			return true
+		}
+		e = e.Kids[i]
+	}
+	return false
 }
